@@ -1102,6 +1102,15 @@ class Engine:
       tmp.env = self.old_env
       tmp.pc = st.pc
       return self.ev(n.args[0], tmp)
+    if isinstance(f, ast.Name) and f.id == 'at_loop_entry' and self.spec:
+      # the value of an expression when the (innermost enclosing) loop was entered
+      env_ = getattr(self, 'loop_entry_envs', None)
+      if not env_:
+        raise Unsupported('at_loop_entry() outside a loop invariant')
+      tmp = St()
+      tmp.env = env_[-1]
+      tmp.pc = st.pc
+      return self.ev(n.args[0], tmp)
     if isinstance(f, ast.Name) and f.id == 'implies' and self.spec:
       a = truthy(self.ev(n.args[0], st))
       self.guards.append(a)
@@ -1284,11 +1293,40 @@ class Engine:
       a = self.ev(args[0], st)
       return sv.mk_bool(isspace_uf()(a.z))
     if name == 'sorted':
+      a0 = args[0]
+      if isinstance(a0, ast.Call) and isinstance(a0.func, ast.Attribute) and a0.func.attr == 'items' and not a0.args:
+        d = self.ev(a0.func.value, st)
+        if isinstance(d, V) and d.t.kind == 'dict':
+          return self.sorted_items(d, st)
       v = self.ev(args[0], st)
       return self.sorted_(v, st)
     if name == 'print':
       return sv.mk_none()
     raise Unsupported('builtin %s/%d' % (name, len(args)))
+
+  def sorted_items(self, d, st):
+    """sorted(d.items()): a fresh list of (key, value) pairs: every pair is an entry of d, every key of d occurs (at
+    position at(k)), no key twice.  (The order itself is not used by the contracts.)"""
+    kt, vt = d.t.args
+    tt = Ty('tuple', [kt, vt])
+    r = sv.fresh(Ty('list', [tt]), 'items')
+    i, j = z3.Int(sv.fresh_name('ii')), z3.Int(sv.fresh_name('ij'))
+    arr, ln = sv.l_arr(r), sv.l_len(r)
+    el = V(tt, z3.Select(arr, i))
+    k_i, v_i = sv.tuple_get(el, 0), sv.tuple_get(el, 1)
+    self.assume(st, ln >= 0)
+    self.assume(st, z3.ForAll([i], z3.Implies(z3.And(0 <= i, i < ln), z3.And(
+        z3.Select(sv.d_keys(d), k_i.z), v_i.z == z3.Select(sv.d_vals(d), k_i.z))), patterns=[z3.Select(arr, i)]))
+    at = uf('at_' + str(r.z), [sv.zsort(kt)], z3.IntSort())
+    x = z3.Const(sv.fresh_name('ik'), sv.zsort(kt))
+    self.assume(st, z3.ForAll([x], z3.Implies(z3.Select(sv.d_keys(d), x), z3.And(
+        0 <= at(x), at(x) < ln, sv.tuple_get(V(tt, z3.Select(arr, at(x))), 0).z == x)),
+        patterns=[z3.Select(sv.d_keys(d), x)]))
+    el_j = V(tt, z3.Select(arr, j))
+    self.assume(st, z3.ForAll([i, j], z3.Implies(z3.And(0 <= i, i < j, j < ln),
+                                                  k_i.z != sv.tuple_get(el_j, 0).z)))
+    self.u.setdefault('_assumed', set()).add('sorted(d.items()): lists exactly the entries of d, each key once')
+    return r
 
   def sorted_(self, v, st):
     """sorted(S) for a set / list: a fresh list with the assumed contract of sorted()."""
@@ -1923,6 +1961,13 @@ class Engine:
     del self.obls[saved_obls:]
     return f
 
+  def loop_old_env(self, st):
+    """What old(e) means inside a loop invariant: parameters and fields have their values at the entry of the *unit*
+    (also in nested loops); a local that did not exist then has its value at the entry of the loop."""
+    env = dict(st.env)
+    env.update(getattr(self, 'unit_entry_env', {}))
+    return env
+
   def havoc(self, names, st):
     for nme in names:
       if nme in st.env and isinstance(st.env[nme], V):
@@ -1951,7 +1996,8 @@ class Engine:
     idx, spec = self.loop_spec(s)
     tag = '[loop%d' % idx
     invs = spec.get('inv', [])
-    entry_env = dict(st.env)
+    entry_env = self.loop_old_env(st)
+    self.__dict__.setdefault('loop_entry_envs', []).append(dict(st.env))
     for k, inv in enumerate(invs):
       self.emit(st, 'loop-init', self.spec_formula(inv, st, old_env=entry_env), s, inv, tag='%s.inv%d]' % (tag, k))
     written = self.written_names(s.body)
@@ -1984,6 +2030,7 @@ class Engine:
     ex = h.copy()
     ex.pc.append(z3.Not(c))
     out.append((ex, NORMAL, None))
+    self.loop_entry_envs.pop()
     return out
 
   def spec_term(self, text, st):
@@ -1999,7 +2046,20 @@ class Engine:
 
   def s_For(self, s, st):
     if s.orelse:
-      raise Unsupported('for-else')
+      # for ... else: the else block runs when the loop ends without break
+      body_only = ast.For(target=s.target, iter=s.iter, body=s.body, orelse=[], lineno=s.lineno, col_offset=s.col_offset)
+      self._for_else = True
+      try:
+        outs = self.s_For(body_only, st)
+      finally:
+        self._for_else = False
+      res = []
+      for s2, oc, val in outs:
+        if oc == NORMAL and s2.ghost.pop('loop_exhausted', False):
+          res.extend(self.block(s.orelse, s2))
+        else:
+          res.append((s2, oc, val))
+      return res
     idx, spec = self.loop_spec(s)
     tag = '[loop%d' % idx
     invs = spec.get('inv', [])
@@ -2026,7 +2086,8 @@ class Engine:
         return [(st, NORMAL, None)]
       ln = sv.l_len(c)
       elem = lambda i, c=c: V(c.t.args[0], z3.Select(sv.l_arr(c), i))
-    entry_env = dict(st.env)
+    entry_env = self.loop_old_env(st)
+    self.__dict__.setdefault('loop_entry_envs', []).append(dict(st.env))
     st.env[ivar] = sv.mk_int(0)
     for k, inv in enumerate(invs):
       self.emit(st, 'loop-init', self.spec_formula(inv, st, old_env=entry_env), s, inv, tag='%s.inv%d]' % (tag, k))
@@ -2054,7 +2115,10 @@ class Engine:
         out.append((s2, oc, val))
     ex = h.copy()
     ex.pc.append(i == ln)
+    ex.ghost = dict(ex.ghost)
+    ex.ghost['loop_exhausted'] = True
     out.append((ex, NORMAL, None))
+    self.loop_entry_envs.pop()
     return out
 
   def for_dict_items(self, s, st, idx, spec, over_set=None):
@@ -2066,7 +2130,8 @@ class Engine:
     d = over_set if over_set is not None else self.ev(s.iter.func.value, st)
     if over_set is None and (not isinstance(d, V) or d.t.kind != 'dict'):
       raise Unsupported('items() of %r' % (getattr(d, 't', d),))
-    entry_env = dict(st.env)
+    entry_env = self.loop_old_env(st)
+    self.__dict__.setdefault('loop_entry_envs', []).append(dict(st.env))
     for k, inv in enumerate(invs):
       self.emit(st, 'loop-init', self.spec_formula(inv, st, old_env=entry_env), s, inv, tag='%s.inv%d]' % (tag, k))
     written = self.written_names(s.body) | {x.id for x in ast.walk(s.target) if isinstance(x, ast.Name)}
@@ -2094,6 +2159,7 @@ class Engine:
       else:
         out.append((s2, oc, v_))
     out.append((h.copy(), NORMAL, None))
+    self.loop_entry_envs.pop()
     return out
 
   def s_Break(self, s, st):
@@ -2140,6 +2206,7 @@ class Engine:
     self.obls.append(Obl(u['name'] + '/pre-satisfiable', 'vacuity', list(st.pc), None, 0,
                          'preconditions are satisfiable', expect='sat'))
     old_env = dict(st.env)
+    self.unit_entry_env = dict(st.env)
     outs = self.block(body, st)
     n_normal = 0
     raises = u.get('raises', {})
